@@ -819,9 +819,28 @@ class Evaluator:
                 first = end.subst(lambda r: sym.subst(r, {jat: ctx.lo - C(1)}))
             except Exception:
                 continue
-            if veq(first, init):
+            if veq(first, self._when_nonempty(ctx, init)):
                 out[nm] = at_entry
         return out
+
+    @staticmethod
+    def _when_nonempty(ctx: 'LoopCtx', v: Val) -> Val:
+        """`v` as seen from inside the body of `for k in range(lo, hi)`: a conditional whose test is settled by hi - lo >= 1
+        (`f(1) if n > 2 else None` before `for k in range(1, n - 1)`) is the branch taken"""
+        while isinstance(v, Gam) and ctx.lo is not None and ctx.hi is not None:
+            q, neg = (v.pred.args[0], True) if isinstance(v.pred, P) and v.pred.op == 'not' else (v.pred, False)
+            if not (isinstance(q, P) and q.op == '<' and all(isinstance(a, Num) and a.length is None for a in q.args)):
+                break
+            cnt = ctx.hi - ctx.lo
+            up, down = q.args[1].r - q.args[0].r - cnt, q.args[0].r - q.args[1].r - cnt
+            if up.is_const() and up.const_value() >= 0:
+                holds = True            # B - A >= hi - lo >= 1
+            elif down.is_const() and down.const_value() >= -1:
+                holds = False           # A - B >= hi - lo - 1 >= 0
+            else:
+                break
+            v = v.a if holds != neg else v.b
+        return v
 
     def _summarise_loop(self, s, ctx: LoopCtx, st: State, body: State, mark: int) -> Dict[str, Val]:
         """`for j in range(n): out.append(v(j))` on an empty list, or `out[j] = v(j)` on a freshly allocated array of n
@@ -1643,6 +1662,11 @@ class Evaluator:
                     if isinstance(r_, Term) and r_.head == 'slice' and all(isinstance(x_, Const) for x_ in r_.args) and isinstance(c_, Num) and c_.length is None:
                         return term_as_num(Term('col', (arr_identity(nb), c_), kind='ndarray'), True, 'ndarray')
                 return Term('index', (nb, idx), kind='ndarray')
+            if isinstance(idx, Term) and idx.head == 'lib:numpy.arange':
+                idx = term_as_num(idx, True, 'ndarray')
+            if isinstance(idx, Num) and idx.length is not None and not any(sym.ATOMS.head(a_) == 'gamma' for a_ in sym.all_atoms(idx.r)):
+                # a[I] with an index array I: element i is a[I[i]]
+                return Num(sym.subst(nb.r, {sym.idx_atom(): idx.r}), idx.length, 'ndarray')
             if isinstance(idx, Term) and idx.head.startswith(('lib:', 'method:', 'call:')):
                 self.emit('subscript', st, node, base=nb, index=idx)
             # boolean mask / fancy index: fresh array
@@ -2430,10 +2454,7 @@ def b_int(ev, pos, kw, st, node):
     v = ev.as_num(pos[0]) if pos else None
     if v is None or v.length is not None:
         return None
-    if v.r.is_const():
-        c = v.r.const_value()
-        return Num(C(int(c)))
-    return Num(sym.A('Int', v.r))
+    return Num(sym.mk_int(v.r))
 
 
 def b_float(ev, pos, kw, st, node):
